@@ -168,6 +168,8 @@ def run_shard(args):
         cmd = [HARNESS_BIN, "ack", "--polls", str(cases), "--out", prefix]
     elif mode == "pure":
         cmd = [HARNESS_BIN, "pure", "--seed", str(seed), "--out", prefix] + extra
+    elif mode == "locks":
+        cmd = [HARNESS_BIN, "locks", "--seed", str(seed), "--millis", str(cases), "--out", prefix]
     else:
         cmd = [HARNESS_BIN, mode, "--seed", str(seed), "--cases", str(cases), "--profile", profile, "--out", prefix] + extra
     rc, out, dt = sh(cmd, timeout=900)
@@ -191,6 +193,11 @@ def replay_lines(lines, prefix):
                 subprocess.run([DRIVER], stdin=inf, stdout=mf, timeout=120)
             cases += trace.load_cases(sub + ".in", sub + ".impl", sub + ".model")
         return cases, 0
+    if any(l.startswith("L ") for l in lines):
+        sh([HARNESS_BIN, "locks", "--seed", "1", "--millis", "800", "--out", prefix], timeout=300)
+        with open(prefix + ".model", "w") as mf, open(prefix + ".in") as inf:
+            subprocess.run([DRIVER], stdin=inf, stdout=mf, timeout=300)
+        return trace.load_cases(prefix + ".in", prefix + ".impl", prefix + ".model"), 0
     if any(l.startswith("P ") for l in lines):
         # pure inputs are regenerated, not replayed line by line
         sh([HARNESS_BIN, "pure", "--seed", "1", "--out", prefix], timeout=300)
@@ -337,7 +344,7 @@ def main(argv):
         jobs = []
         for (mode, profile, quick_n, thorough_n, extra) in plan.get("runs", []):
             total = thorough_n if thorough else quick_n
-            if mode in ("ack", "pure"):
+            if mode in ("ack", "pure", "locks"):
                 jobs.append((mode, profile, seed, total, os.path.join(workdir, f"{mode}_{profile}"), list(extra) + (["--thorough"] if thorough and mode == "pure" else [])))
                 continue
             per = max(1, min(40, total // 8 or 1))
@@ -389,6 +396,8 @@ def main(argv):
             key = s.kind if s.kind != "worker" else "worker:" + (s.out.split()[1] if len(s.out.split()) > 1 else "?")
             if s.kind == "pure":
                 key = "pure:" + (s.toks[0] if s.toks else "?")
+            if s.kind == "locks":
+                key = "locks:" + " ".join(s.toks[:3])
             dist[key] = dist.get(key, 0) + 1
             o = s.out.split()
             if o and o[0] in ("panic", "workerpanic", "parked", "err"):
@@ -413,19 +422,27 @@ def main(argv):
 
     # ---- 3. classify monitor hits
     reported_sigs = set()
+    shrink_deadline = time.time() + (45 if not thorough else 240)
+    by_sig = {}
     for c, f in mon_hits:
         sig = f["signature"]
         if sig in known_by_sig:
             known_seen.setdefault(sig, (c, f))
             continue
         stats["impl_property_violations"] += 1
-        if sig in reported_sigs:
-            continue
-        reported_sigs.add(sig)
-        lines, shrunk = shrink(c, pid, sig, workdir, budget_s=20 if not thorough else 90)
+        # prefer the shortest case for each signature
+        if sig not in by_sig or len(c.steps) < len(by_sig[sig][0].steps):
+            by_sig[sig] = (c, f)
+    for sig in sorted(by_sig, key=lambda x: len(by_sig[x][0].steps))[:6]:
+        c, f = by_sig[sig]
+        if time.time() < shrink_deadline:
+            lines, shrunk = shrink(c, pid, sig, workdir, budget_s=15 if not thorough else 60)
+        else:
+            lines, shrunk = c.input_lines(), False
         rp = os.path.join(replay_dir, f"{pid}-{re.sub(r'[^A-Za-z0-9_.=-]', '_', sig)}.json")
         write_json(rp, {"property": pid, "kind": "implementation-violates-property", "signature": sig, "what": f["what"],
                         "found_in": c.header, "shrunk": shrunk, "input": lines,
+                        "other_signatures_in_this_run": sorted(by_sig),
                         "how_to_replay": f"./check {pid} --replay {rp}"})
         violations.append({"kind": "monitor", "signature": sig, "what": f["what"], "replay": rp})
 
